@@ -671,6 +671,9 @@ func (c *EvalCtx) call(e *Expr) CV {
 			c.fail("atcall needs one argument")
 		}
 		return c.with(c.atCall).eval(e.Args[0])
+	case "runeSuffix":
+		a := args()
+		return CV{T: "(runeSuffix " + a[0].T + " " + a[1].T + ")", Sort: "Str", Type: types.Typ[types.String]}
 	case "byteAt":
 		a := args()
 		return integer("(byteAt " + a[0].T + " " + a[1].T + ")")
